@@ -37,6 +37,9 @@ type peerPlan struct {
 	Mode  string
 	Chunk int
 	RstAt int // >0: the peer resets the connection after reading this many bytes
+	// SlowReader: the peer has a small receive buffer and reads in small pieces with pauses, so that much of what the
+	// client sent is still on its way (in the proxy's socket) when the relay is over and the proxy closes
+	SlowReader bool
 }
 
 type c3case struct {
@@ -106,6 +109,7 @@ func genCase(t *rapid.T, maxSize int) c3case {
 		} else {
 			p.Mode = []string{"after-eof", "duplex", "first"}[rapid.IntRange(0, 2).Draw(t, "mode")]
 		}
+		p.SlowReader = rapid.IntRange(0, 3).Draw(t, "slowReader") == 0
 		c.Peers = append(c.Peers, p)
 	}
 	switch rapid.IntRange(0, 7).Draw(t, "fault") {
@@ -228,6 +232,9 @@ func runCase(t hx.TB, c c3case, dir string) {
 			}
 			defer conn.Close()
 			_ = conn.SetDeadline(time.Now().Add(30 * time.Second))
+			if tc, ok := conn.(*net.TCPConn); ok && p.SlowReader {
+				_ = tc.SetReadBuffer(4096)
+			}
 			r := pres[i]
 			if tc, ok := conn.(*tls.Conn); ok {
 				// a TLS server completes the handshake when the connection arrives, before its application speaks or
@@ -252,7 +259,13 @@ func runCase(t hx.TB, c c3case, dir string) {
 			}
 			readAll := func() {
 				buf := make([]byte, 32*1024)
+				if p.SlowReader {
+					buf = buf[:2048]
+				}
 				for {
+					if p.SlowReader && len(r.got) < 1<<20 {
+						time.Sleep(300 * time.Microsecond)
+					}
 					n, err := conn.Read(buf)
 					r.got = append(r.got, buf[:n]...)
 					if p.RstAt > 0 && len(r.got) >= p.RstAt {
